@@ -226,7 +226,9 @@ _re_build_id = regex.compile(r'^[0-9]+$')
 
 
 def _build_sheet_id(sheet='', directory='', filename='', **kw):
-    sheet = sheet.replace("''", "'").upper()
+    # An apostrophe of the sheet name is always doubled, so that the id can
+    # be parsed again.
+    sheet = sheet.replace("''", "'").upper().replace("'", "''")
     if filename:
         if _re_build_id.match(filename):
             sheet = "[%s]%s" % (filename, sheet)
@@ -234,7 +236,7 @@ def _build_sheet_id(sheet='', directory='', filename='', **kw):
             if directory and not directory.endswith('/'):
                 directory += '/'
             sheet = "'%s[%s]%s'" % (directory, filename, sheet)
-    elif ' ' in sheet:
+    elif ' ' in sheet or "'" in sheet:
         sheet = "'%s'" % sheet
     return sheet
 
